@@ -146,9 +146,31 @@ def model_pipe2(ctx: Ctx, s: str, sigma):
     return v, c, c2
 
 
+# Every case evaluated in this process, in order, as its replay record (kind tokens / string / cmp): if a failing case
+# turns out to depend on the calls made before it (harness/fresh.py), the earlier cases are its replay.
+CALLS: list = []
+
+
+def marks_calls(fn):
+    """Failures recorded by a case function remember how many cases had been evaluated (their own included)."""
+    import functools
+
+    @functools.wraps(fn)
+    def wrapper(ctx, *a, **kw):
+        n = len(ctx.prop_fails)
+        try:
+            return fn(ctx, *a, **kw)
+        finally:
+            for f in ctx.prop_fails[n:]:
+                f["_calls"] = len(CALLS)
+    return wrapper
+
+
+@marks_calls
 def check_tokens(ctx: Ctx, texts: List[str], origin: str):
     """A string that is a sequence of documented tokens."""
     s = "".join(texts)
+    CALLS.append(dict(op="case", kind="tokens", regex=s, tokens=list(texts)))
     kinds = [KIND[x] for x in texts if x.strip()]
     rv = call(lambda: rx.validate(s))
     rc = call(lambda: NFA.from_regex(s))
@@ -222,6 +244,7 @@ def has_bad_bound(s: str) -> bool:
     return False
 
 
+@marks_calls
 def check_malformed(ctx: Ctx, s: str, origin: str):
     """Arbitrary strings (lone braces, odd bounds, white space).  Model = code on every one; and
     — theorems C11_validate_from_regex_any_default / C11_lex_error_kind — on the real code:
@@ -230,6 +253,7 @@ def check_malformed(ctx: Ctx, s: str, origin: str):
     unless a brace group has a non-numeric bound that class is a RegexException subclass."""
     from harness.ops.C10 import stage_model, stage_observe
     from automata.regex import parser as rxparser
+    CALLS.append(dict(op="case", kind="string", regex=s))
     ctx.stat(origin)
     ctx.case(None)
     rv = call(lambda: rx.validate(s))
@@ -277,7 +301,15 @@ def check_malformed(ctx: Ctx, s: str, origin: str):
 def check_cmp(ctx: Ctx, e1, e2, sigma: str, origin: str, style_rng=None):
     s1 = R.render(e1, "extra" if style_rng else "min", style_rng)
     s2 = R.render(e2, "extra" if style_rng else "min", style_rng)
+    check_cmp_strings(ctx, s1, s2, e1, e2, sigma, origin)
+
+
+@marks_calls
+def check_cmp_strings(ctx: Ctx, s1: str, s2: str, e1, e2, sigma, origin: str):
+    """Two renderings with their ASTs over a common alphabet (also the replay entry: the same library calls in the
+    same order as in the run)."""
     sig = frozenset(sigma)
+    CALLS.append(dict(op="case", re1=s1, re2=s2, input_symbols=sorted(sigma), ast1=e1, ast2=e2, kind="cmp"))
     sizes = [call(lambda s=s: len(NFA.from_regex(s, input_symbols=sig).states)) for s in (s1, s2)]
     if any(r[0] == "ok" and r[1] > 40 for r in sizes):
         ctx.stat("cmp_skipped_large_nfa")
@@ -385,10 +417,41 @@ def kinds_of(s: str) -> List[str]:
 def judge_program_json(text: str):
     """Entry point of the fresh-interpreter confirmation and of `replay`: run a recorded program of calls through
     the real library, every step judged by its own oracle; returns the list of failures."""
+    ctx = Ctx("C11", "quick", 0)
+
+    def case_step(st):
+        n = len(ctx.prop_fails)
+        replay_case(ctx, st)
+        return [f["what"] for f in ctx.prop_fails[n:]]
+
     try:
-        return S.judge_steps(json.loads(text))
+        return S.judge_steps(json.loads(text), extra_ops={"case": case_step})
     except S.Skip:
         return []
+    finally:
+        for d in ctx.drivers.values():
+            d.close()
+
+
+def replay_case(ctx: Ctx, rp: dict):
+    """Re-evaluate one recorded case (kind cmp / string / tokens) with the same library calls as in the run."""
+    if rp.get("kind") == "cmp":
+        check_cmp_strings(ctx, rp["re1"], rp["re2"], to_ast(rp["ast1"]), to_ast(rp["ast2"]), "".join(rp["input_symbols"]), "replay")
+    elif rp.get("kind") == "string":
+        check_malformed(ctx, rp["regex"], "replay")
+    else:
+        check_tokens(ctx, rp["tokens"], "replay")
+
+
+def settle_replays(ctx: Ctx):
+    """The failure run.py prints must fail as the first thing a fresh interpreter does; otherwise its replay becomes
+    recorded earlier calls / cases of the run followed by it (harness/fresh.py)."""
+    from harness import fresh
+
+    def make_replay(steps, rp, n_history):
+        return dict(kind="sequence", steps=steps, failing_step=n_history + rp.get("failing_step", 0))
+
+    fresh.settle_replays(ctx, "C11", CALLS, lambda rp: dict(rp, op="case"), S.keys_of, make_replay)
 
 
 def fresh_alphabet_sequences(ctx: Ctx):
@@ -400,7 +463,6 @@ def fresh_alphabet_sequences(ctx: Ctx):
     helpers against the derivative oracle `ast_cmp`.  The model is asked afterwards (it has no history)."""
     rng = ctx.rng
     used: set = set()
-    history: List[dict] = []
     failing: list = []
     for _ in range(ctx.budget(1000, 8000)):
         prog = S.gen_program(rng, used, "cmp", rewrite_equiv)
@@ -412,8 +474,7 @@ def fresh_alphabet_sequences(ctx: Ctx):
             if "valid" in st and in_grammar(kinds_of(st["re"])) != st["valid"]:
                 raise InfraError(f"sequence generator: {st['re']!r} marked valid={st['valid']} but the grammar says otherwise")
         used.update(S.touched_alphabets(steps))
-        n_before = len(history)
-        history.extend(S.clean(steps))
+        CALLS.extend(S.clean(steps))
         try:
             bad = S.judge_steps(steps)
         except S.Skip:
@@ -427,7 +488,7 @@ def fresh_alphabet_sequences(ctx: Ctx):
         ctx.case(json.dumps(S.clean(steps), sort_keys=True) if len(steps) >= 2 else None)
         if bad:
             ctx.stat("seq_failing_program")
-            failing.append((prog, bad, n_before))
+            failing.append((prog, bad, len(CALLS)))
             continue
         for st in steps:
             if st["op"] == "cmp":
@@ -438,10 +499,17 @@ def fresh_alphabet_sequences(ctx: Ctx):
                           tuple(st["_real"]))
         if ctx.evaluations % 97 == 5:
             ctx.sample(dict(sequence=S.clean(steps)))
-    S.report_failing(ctx, "C11", failing, history)
+    S.report_failing(ctx, failing)
 
 
 def run(ctx: Ctx):
+    try:
+        run_families(ctx)
+    finally:
+        settle_replays(ctx)
+
+
+def run_families(ctx: Ctx):
     rng = ctx.rng
     # 0. call sequences over fresh alphabets — FIRST, while no alphabet has been used in this process
     fresh_alphabet_sequences(ctx)
@@ -539,21 +607,8 @@ def replay(ctx: Ctx, path: str) -> int:
     if rp.get("kind") == "sequence":
         for i, what, _detail in judge_program_json(json.dumps(rp["steps"])):
             ctx.prop_fail(f"after {S.describe(rp['steps'], i)}: {what}", rp, None)
-    elif rp.get("kind") == "cmp":
-        # the rendered strings are what failed; re-render deterministically from the ASTs is not
-        # needed: compare the real helpers on the recorded strings against the AST oracle
-        e1, e2 = to_ast(rp["ast1"]), to_ast(rp["ast2"])
-        sig = frozenset(rp["input_symbols"])
-        real = (call(lambda: rx.isequal(rp["re1"], rp["re2"], input_symbols=sig)),
-                call(lambda: rx.issubset(rp["re1"], rp["re2"], input_symbols=sig)),
-                call(lambda: rx.issuperset(rp["re1"], rp["re2"], input_symbols=sig)))
-        sub, sup = R.ast_cmp(e1, e2, rp["input_symbols"])
-        if real != (("ok", sub and sup), ("ok", sub), ("ok", sup)):
-            ctx.prop_fail(f"{rp['re1']!r} vs {rp['re2']!r}: helpers {real}, languages eq={sub and sup} sub={sub} sup={sup}", rp, None)
-    elif rp.get("kind") == "string":
-        check_malformed(ctx, rp["regex"], "replay")
     else:
-        check_tokens(ctx, rp["tokens"], "replay")
+        replay_case(ctx, rp)
     if ctx.prop_fails:
         print(f"VIOLATION property=C11 replay={path}")
         print("  " + ctx.prop_fails[0]["what"])
